@@ -330,7 +330,10 @@ def chk_update(c):
     if only == 0:
         return
     for kk, (problem2, par) in enumerate((('c * u * v * dx', {'c': 1.5}), ('c * f * inner(grad(u), grad(v)) * dx + sin(c) * f * f * u * v * dx', {'c': 0.7}),
-                          ('inner(b, grad(u)) * v * c * dx', {'c': 2.0, 'b': (0.5, -1.0)}))):
+                          ('inner(b, grad(u)) * v * c * dx', {'c': 2.0, 'b': (0.5, -1.0)}),
+                          # constants DERIVED from a parameter and shared between terms are hoisted out of the kernel: they must follow an update too
+                          ('norm(b) * norm(b) * u * v * dx', {'b': (3.0, 4.0)}),
+                          ('(sin(c) + cos(c)) * u * v * dx + (sin(c) + cos(c)) * inner(grad(u), grad(v)) * dx', {'c': 0.3}))):
         if only is not None and only != kk + 1:
             continue
         extra = {'f': fs[0]} if ' f ' in problem2 or '* f' in problem2 else {}
@@ -420,10 +423,13 @@ def generate(tier, rng):
     for form in ('pg21', 'pg12'):
         for r in range(nrep):
             kv, kv2 = _kvspecs(rng, 2, quick), _kvspecs(rng, 2, quick)
-            # the two spaces share the mesh (breakpoints) but not degree / multiplicities
-            for a, b in zip(kv, kv2):
+            # the two spaces share the mesh (breakpoints) but not degree / multiplicities: the interior multiplicities of the second
+            # space are chosen independently (different smoothness: the sparsity pattern of the pair is not that of either space)
+            for ax, (a, b) in enumerate(zip(kv, kv2)):
                 b[1] = a[1]
-                b[2] = [min(m, b[0]) for m in (a[2] + [1] * 5)[:len(b[1]) - 2]]
+                b[2] = [int(rng.choice([1, min(2, b[0]), b[0]])) for _ in b[1][1:-1]]
+                if ax == 0 and b[2] == a[2] and a[0] >= 2 and len(a[2]) >= 1:
+                    a[2][0] = 1 if a[2][0] != 1 else 2
             base = {'form': form, 'kvs': kv, 'kvs2': kv2, 'geo': ['bump', 'annulus'][r % 2]}
             yield 'formats', base
             yield 'subset', dict(base, seed=r)
@@ -450,7 +456,7 @@ def warmup(tier):
     jobs.append(lambda: _asm_object({'form': 'mass3', 'kvs': kv2 + kv2[:1]}, on_demand=True, bbox=((0, 1), (0, 1), (0, 1))))
     jobs.append(lambda: chk_update({'kvs': kv2, 'sequence': [], 'symmetric': False, 'only': 0}))
     jobs.append(lambda: chk_update({'kvs': kv2, 'sequence': [], 'gradf': True, 'only': 0}))
-    for k in (1, 2, 3):
+    for k in (1, 2, 3, 4, 5):
         jobs.append(lambda k=k: chk_update({'kvs': kv2, 'sequence': [], 'only': k}))
     jobs.append(lambda: chk_vector_layout({'kvs': kv2}))
     if tier != 'quick':
